@@ -43,3 +43,7 @@ Definition py_stitch (line ms reps : pyval) : res :=
   | VStr l, VList m, VList r => match stitch_z l 0 m r with Some t => Normal (VStr t) | None => Exc TypeError end
   | _, _, _ => Exc TypeError
   end.
+
+(* dict.items() / bidict.items(): the (key, value) pairs in insertion order *)
+Definition py_items (v : pyval) : res :=
+  match v with VDict d | VBidict d => Normal (VList (map (fun kv => VTuple [fst kv; snd kv]) d)) | _ => Exc AttributeError end.
